@@ -3,11 +3,13 @@
 set -e
 P="$1"; case "$P" in -R:*) ;; /*) ;; *) P="$(pwd)/$P" ;; esac; PROP="$2"; TIER="${3:-quick}"
 D=$(mktemp -d /tmp/mutXXXXXX)
-cp -r /repo/src "$D/src"
 case "$P" in
-  -R:*) git -C /repo show "${P#-R:}" | (cd "$D" && patch -R -p1 -s) ;;
-  *) (cd "$D" && patch -p1 -s < "$P") ;;
+  -R:*) # revert of a fix commit: done by git in a scratch worktree (handles later commits touching the same file)
+        rmdir "$D"; git -C /repo worktree add -q --detach "$D" HEAD
+        git -C "$D" -c user.email=x@y -c user.name=x revert --no-commit "${P#-R:}" >/dev/null 2>&1 || { echo "revert of ${P#-R:} failed"; git -C /repo worktree remove --force "$D"; exit 3; }
+        WT=1 ;;
+  *) cp -r /repo/src "$D/src"; (cd "$D" && patch -p1 -s < "$P") ;;
 esac
 cd /verif
-VERIF_EVIDENCE_DIR="$D/evidence" VERIF_REPLAY_DIR="$D/replays" EKW_REPO_SRC="$D/src" ./check "$PROP" --tier "$TIER" 2>&1 | grep -E "VIOLATION|DETAIL|UNDECIDED|KNOWN|^\[" | cut -c1-260 | head -${LINES_MAX:-12}
-rm -rf "$D"
+VERIF_EVIDENCE_DIR="$D/evidence" VERIF_REPLAY_DIR="$D/replays" EKW_REPO_SRC="$D/src" ./check "$PROP" --tier "$TIER" 2>&1 | grep -E "VIOLATION|DETAIL|UNDECIDED|KNOWN|CRASH|Error|^\[" | cut -c1-260 | head -${LINES_MAX:-12}
+if [ -n "$WT" ]; then git -C /repo worktree remove --force "$D"; else rm -rf "$D"; fi
